@@ -6,7 +6,7 @@ The model (Rc/Model/Bmp.lean) mirrors src/bmp/message.rs after the repairs
 listed in known_findings.jsonl (`fixed` entries); `Outcome.panic` stands for
 every slice/index/unwrap/overflow that could fire.
 -/
-import Rc.Lemmas.Bmp
+import Rc.Lemmas.BmpBytes
 import Rc.Lemmas.OpenParse
 
 namespace Rc.Thm.C15
@@ -214,5 +214,105 @@ theorem peer_up_total {bs : Bytes} (h : fromOctets deps bs = .ok .peerUp) :
       | panic => simp [h3] at hc
     | err => simp [h2] at hc
     | panic => simp [h2] at hc
+
+/-! ## faithfulness: "decoding succeeds and reports the encoded fields"
+
+Reference encoders: `encPph`, `encStat`, `encTlv` (Rc/Model/Bmp.lean), `encTerm`
+(Rc/Lemmas/BmpBytes.lean). The well-formedness predicates say only that each
+field fits its wire width. -/
+
+/-- per-peer header: every field (type, flags, distinguisher, IPv4/IPv6
+address chosen by the V flag, AS, BGP id, timestamp seconds and microseconds)
+is reported as encoded, whatever precedes (the 6-byte common header) and
+follows it -/
+theorem per_peer_header_roundtrip (hdr rest : Bytes) (p : Pph) (hh : hdr.length = 6) (hp : WfPph p) :
+    pph (hdr ++ encPph p ++ rest) = .ok p := pph_enc hdr rest p hh hp
+
+example : WfPph ⟨1, 0x80, [1,2,3,4,5,6,7,8], true, List.replicate 16 7, 65551, [10,0,0,1], 1700000000, 999999⟩ := by
+  simp [WfPph]
+
+/-- statistics report: `stats_count` is the encoded count and `stats()`
+yields exactly the encoded statistics, in order – for every list length and
+every mix of the 18 defined types and unknown ones -/
+theorem statistics_roundtrip (hdr rest : Bytes) (ss : List Stat) (hh : hdr.length = 48)
+    (hn : ss.length < 4294967296) (h : ∀ s ∈ ss, WfStat s) :
+    statsCount (hdr ++ be32 ss.length ++ ss.flatMap encStat ++ rest) = .ok ss.length ∧
+    stats (hdr ++ be32 ss.length ++ ss.flatMap encStat ++ rest) = .ok ss := stats_enc hdr rest ss hh hn h
+
+example : ∀ s ∈ [Stat.u32 0 5, Stat.u64 7 (2^40), Stat.afiSafi 9 1 1 77, Stat.unimplemented 99 3, Stat.unimplemented 0 5], WfStat s := by
+  simp [WfStat, isU32Stat, isU64Stat, isAfiSafiStat]
+
+/-- initiation message: the Information TLV iterator yields exactly the encoded TLVs -/
+theorem initiation_roundtrip (hdr : Bytes) (ts : List (Nat × Nat × Bytes)) (hh : hdr.length = 6)
+    (h : ∀ t ∈ ts, WfTlv t) :
+    initiationTlvs (hdr ++ ts.flatMap encTlv) = .ok ts := by
+  unfold initiationTlvs
+  rw [sliceFrom_ok (by simp [hh])]
+  dsimp only
+  have := infoTlvIter_enc hdr ts ((hdr ++ ts.flatMap encTlv).length + 1) ?_ h
+  · rw [hh] at this; exact this
+  · have : ts.length ≤ (ts.flatMap encTlv).length :=
+      length_le_flatMap encTlv ts (fun x => by simp [encTlv, List.length_append]; omega)
+    simp only [List.length_append]; omega
+
+/-- termination message: the Information iterator yields exactly the encoded
+strings and reason codes -/
+theorem termination_roundtrip (hdr : Bytes) (ts : List TermInfo) (hh : hdr.length = 6)
+    (h : ∀ t ∈ ts, WfTerm t) :
+    terminationInfo (hdr ++ ts.flatMap encTerm) = .ok ts := by
+  unfold terminationInfo
+  rw [sliceFrom_ok (by simp [hh])]
+  dsimp only
+  have := termIter_enc hdr ts ((hdr ++ ts.flatMap encTerm).length + 1) ?_ h
+  · rw [hh] at this; exact this
+  · have : ts.length ≤ (ts.flatMap encTerm).length :=
+      length_le_flatMap encTerm ts (fun x => by cases x <;> simp [encTerm, List.length_append] <;> omega)
+    simp only [List.length_append]; omega
+
+example : ∀ t ∈ [TermInfo.customString [104, 105], TermInfo.reason 3], WfTerm t := by simp [WfTerm]
+
+/-- peer down: reason, FSM code and the embedded NOTIFICATION (byte for byte)
+are what follows the 48 header bytes -/
+theorem peer_down_roundtrip (hdr payload : Bytes) (reason : Nat) (hh : hdr.length = 48) (hr : reason < 256) :
+    peerDownReason (hdr ++ [UInt8.ofNat reason] ++ payload) = .ok (if reason ≤ 5 then reason else 6) ∧
+    (reason = 2 → 2 ≤ payload.length →
+      peerDownFsm (hdr ++ [UInt8.ofNat reason] ++ payload) = .ok (some (beAt payload 0 2))) ∧
+    ((reason = 1 ∨ reason = 3) → payload ≠ [] →
+      peerDownNotification (hdr ++ [UInt8.ofNat reason] ++ payload) = .ok (some payload)) := by
+  have hreason : peerDownReason (hdr ++ [UInt8.ofNat reason] ++ payload) = .ok (if reason ≤ 5 then reason else 6) := by
+    unfold peerDownReason
+    have := idx_shift hdr ([UInt8.ofNat reason] ++ payload) 0
+    simp only [hh, Nat.add_zero] at this
+    simp only [List.append_assoc, COFF]
+    rw [this]
+    simp [idx, beAt, beNat, UInt8.toNat_ofNat', Nat.mod_eq_of_lt hr]
+  refine ⟨hreason, ?_, ?_⟩
+  · intro h2 hl
+    unfold peerDownFsm
+    rw [hreason]
+    subst h2
+    dsimp only
+    have := rdBE_shift (hdr ++ [UInt8.ofNat 2]) payload 0 2
+    simp only [List.length_append, hh, List.length_singleton, Nat.add_zero] at this
+    simp only [COFF]
+    rw [this]
+    simp [rdBE, hl]
+  · intro h13 hne
+    unfold peerDownNotification
+    rw [hreason]
+    dsimp only
+    have h1 : ((if reason ≤ 5 then reason else 6) = 1 ∨ (if reason ≤ 5 then reason else 6) = 3) := by
+      rcases h13 with h | h <;> simp [h]
+    have h2 : ¬ COFF + 1 = (hdr ++ [UInt8.ofNat reason] ++ payload).length := by
+      have : payload.length ≠ 0 := by simpa using hne
+      simp [List.length_append, hh, COFF]; omega
+    simp only [h1, h2, if_true, if_false]
+    rw [sliceFrom_ok (by simp [List.length_append, hh, COFF]; omega)]
+    dsimp only
+    have : List.drop (COFF + 1) (hdr ++ [UInt8.ofNat reason] ++ payload) = payload := by
+      have : COFF + 1 = (hdr ++ [UInt8.ofNat reason]).length := by simp [hh, COFF]
+      rw [this, List.drop_left']
+      rfl
+    rw [this]
 
 end Rc.Thm.C15
